@@ -55,15 +55,18 @@ type (
 
 const BestCompression = "bestCompression"
 
-var defaultCompressSrvList = NewServices([]CompressOption{
-	{
-		Name: BestCompression,
-		Levels: map[string]int{
-			// -1则会选择默认的压缩级别
-			"br":   -1,
-			"gzip": gzip.BestCompression,
-		},
+// bestCompressionOption the built-in best compression service
+var bestCompressionOption = CompressOption{
+	Name: BestCompression,
+	Levels: map[string]int{
+		// -1则会选择默认的压缩级别
+		"br":   -1,
+		"gzip": gzip.BestCompression,
 	},
+}
+
+var defaultCompressSrvList = NewServices([]CompressOption{
+	bestCompressionOption,
 })
 var defaultCompressSrv = NewService()
 var notSupportedEncoding = errors.New("not supported encoding")
@@ -110,10 +113,21 @@ func (cs *compressSrvs) Get(name string) *compressSrv {
 func (cs *compressSrvs) Reset(opts []CompressOption) {
 	// 此处不删除存在的压缩服务，因为compress实例并不占多少内存
 	// 也避免配置了bestCompression后删除
+	resetBestCompression := true
 	for _, opt := range opts {
+		if opt.Name == BestCompression {
+			resetBestCompression = false
+		}
 		srv := NewService()
 		srv.SetLevels(opt.Levels)
 		cs.m.Store(opt.Name, srv)
+	}
+	// 如果配置中不再指定bestCompression，则恢复为内置的压缩级别，
+	// 避免曾经配置的级别在配置删除后仍然生效
+	if _, ok := cs.m.Load(BestCompression); ok && resetBestCompression {
+		srv := NewService()
+		srv.SetLevels(bestCompressionOption.Levels)
+		cs.m.Store(BestCompression, srv)
 	}
 }
 
